@@ -43,7 +43,9 @@ BOUNDS = {
 READY = True
 
 PLACES = ["page", "d", "n", "b", "anon"]
-CONTEXTS = {"c1": {"v": "1", "k": "ka"}, "c2": {"v": "2", "k": "ka"}, "c3": {"v": "3", "k": "kb"}}
+CONTEXTS = {"c1": {"v": "1", "k": "ka"}, "c2": {"v": "2", "k": "ka"}, "c3": {"v": "3", "k": "kb"},
+            # keys that are not strings: the key is the VALUE of cache_key, 5 and "5" are different keys
+            "c4": {"v": "4", "k": 5}, "c5": {"v": "5", "k": "5"}, "c6": {"v": "6", "k": 5}}
 
 
 def programs(tier):
@@ -432,7 +434,7 @@ class World:
                 m2.lead = m.lead
                 # ghost: what the predecessor had stored.  The model never uses it (those entries must not be served),
                 # but it keeps "recompiled over a filled cache" distinct from "recompiled over an empty one" in the search
-                m2.ghost = tuple(sorted(m.store))
+                m2.ghost = tuple(sorted(map(repr, m.store)))
                 self.models[ti] = m2  # entries of the predecessor are never served to the recompiled template
         except BaseException as e:  # noqa
             viols.append(("%s:exception:%s" % (kind, type(e).__name__), "the operation succeeds", "no exception", "%s: %s" % (type(e).__name__, str(e)[:150])))
@@ -492,7 +494,7 @@ def events(cfg):
     ev = []
     nt = len(cfg.get("uris") or [1])
     for ti in range(nt):
-        for cn in ("c1", "c2", "c3") if prog["key"] == "ctx" else ("c1", "c2"):
+        for cn in prog.get("ctxs") or (("c1", "c2", "c3") if prog["key"] == "ctx" else ("c1", "c2")):
             ev.append(("render", ti, cn))
         if ti == 0 and not cfg.get("nofault"):
             secs = [x for x in ("d", "n", "b") if x in c] + ["anon"]
@@ -510,7 +512,10 @@ def events(cfg):
             ev.append(("invalidate_def", ti, "d"))
             if prog["key"] == "literal":
                 ev.append(("invalidate", ti, "K1"))
-            if prog["key"] == "ctx":
+            if prog["key"] == "ctx" and prog.get("ctxs"):
+                ev.append(("invalidate", ti, 5))
+                ev.append(("invalidate", ti, "5"))
+            elif prog["key"] == "ctx":
                 ev.append(("invalidate", ti, "ka"))
             if prog["key"] == "arg":
                 ev.append(("invalidate", ti, "y"))
@@ -533,7 +538,7 @@ def events(cfg):
     return ev
 
 
-KEY_UNIVERSE = ["render_body", "render_d", "K1", "ka", "kb", "x", "y", "n", "render_b", "render_render_k"]
+KEY_UNIVERSE = ["render_body", "render_d", "K1", "ka", "kb", "x", "y", "n", "render_b", "render_render_k", 5, "5"]
 
 
 def real_state(w):
@@ -549,7 +554,7 @@ def real_state(w):
         starts = {t.cache.id: t.cache.starttime for t in w.templates}
         for (cid, k), (val, stamp) in sorted(w.cc.STORE.items(), key=lambda kv: (str(kv[0][0]), str(kv[0][1]))):
             fresh = stamp >= starts.get(cid, 0)
-            out.append((str(cid), str(k), str(val) if fresh else "<stale>"))
+            out.append((str(cid), repr(k), str(val) if fresh else "<stale>"))
         return tuple(map(str, out))
     for ti, t in enumerate(w.templates):
         keys = KEY_UNIVERSE + [w.models[ti].info["anon"]]
@@ -559,12 +564,12 @@ def real_state(w):
             except BaseException:  # noqa
                 v = None
             if v is not None and type(v).__name__ != "NoValue":
-                out.append((ti, k, str(v)))
+                out.append((ti, repr(k), str(v)))
     return tuple(map(str, out))
 
 
 def key_of(w):
-    return tuple(w.version) + tuple((tuple(sorted((k, v[1] if v[1] == "set" else v[0]) for k, v in m.store.items())), m.enabled, m.ghost) for m in w.models) + (real_state(w),)
+    return tuple(w.version) + tuple((tuple(sorted(((repr(k), v[1] if v[1] == "set" else v[0]) for k, v in m.store.items()))), m.enabled, m.ghost) for m in w.models) + (real_state(w),)
 
 
 def initial_key(cfg):
@@ -619,6 +624,9 @@ def configs(tier):
             cfgs.append({"prog": prog, "backend": be, "max_depth": 30 if tier != "quick" else 8})
             if be == "rec" and prog["args"] != "none":
                 cfgs.append({"prog": prog, "backend": be, "pass_context": True, "max_depth": 30})
+    # cache keys that are not strings
+    for be in backends[:2] if tier == "quick" else backends:
+        cfgs.append({"prog": {"cached": ["d"], "key": "ctx", "flags": "", "args": "none", "ctxs": ["c4", "c5", "c6"]}, "backend": be, "max_depth": 30 if tier != "quick" else 7, "nofault": True})
     # several templates sharing one backend; URIs that differ only in punctuation
     for uris in (["t17a", "t17b"], ["t-x", "t_x"]):
         for be in backends[:2]:
